@@ -119,6 +119,13 @@ var consumers = []consumer{
 	{name: "array0-surplus", wrap: func(d []byte) []byte { return append(append([]byte(`[`), d...), ']') },
 		pkg: func(w []byte) error { var s [0]int; return json.Unmarshal(w, &s) },
 		std: func(w []byte) error { var s [0]int; return stdjson.Unmarshal(w, &s) }},
+	// fewer elements than the Go array has slots: the syntax of what is there is still checked
+	{name: "array-short", wrap: func(d []byte) []byte { return append(append([]byte(`[`), d...), ']') },
+		pkg: func(w []byte) error { var s [3]any; return json.Unmarshal(w, &s) },
+		std: func(w []byte) error { var s [3]any; return stdjson.Unmarshal(w, &s) }},
+	{name: "array-short-nested", wrap: func(d []byte) []byte { return append(append([]byte(`{"a":[[`), d...), []byte(`],[2]]}`)...) },
+		pkg: func(w []byte) error { var s struct{ A [2][4]any }; return json.Unmarshal(w, &s) },
+		std: func(w []byte) error { var s struct{ A [2][4]any }; return stdjson.Unmarshal(w, &s) }},
 	{name: "interface-skip", wrap: func(d []byte) []byte { return append(append([]byte(`{"a":1,"k":`), d...), []byte(`,"b":2}`)...) },
 		pkg: func(w []byte) error { var s struct{ A, B int }; return json.Unmarshal(w, &s) },
 		std: func(w []byte) error { var s struct{ A, B int }; return stdjson.Unmarshal(w, &s) }},
@@ -475,6 +482,13 @@ func runDecoderStream(c *core.Case) {
 		sb.WriteString(core.Pick(r, seps))
 	}
 	for sb.Len() < target {
+		if r.Chance(1, 3) {
+			// bare numbers and literals end where the next byte says so: wherever a refill
+			// boundary falls inside them or right behind them, they are one value
+			sb.WriteString(core.Pick(r, []string{"0", "-1", "12345678901234567890", "1.5", "-2.5e-3", "1E400", "true", "false", "null", "123456", "0.000001", "9e9"}))
+			sb.WriteString(core.Pick(r, seps[:2]))
+			continue
+		}
 		sb.WriteString(cleanValue(r))
 		sb.WriteString(core.Pick(r, seps))
 	}
@@ -533,7 +547,7 @@ func trunc(s string) string {
 func init() {
 	core.Register(&core.Monitor{
 		Prop:    "C05",
-		Rule:    "Every document goes through json.Valid and through syntax-only consumers (Marshal of RawMessage / Marshaler output / RawMessage field / RawMessage among valid siblings in maps and slices, Unmarshal into RawMessage, unknown-field skip, RawMessage field, surplus elements of [1]int and [0]int, skipped member between known fields, Decoder framing of d, 'd d' and 'dd'); each is compared with the same operation of encoding/json on the same bytes (accept/reject; for the Decoder the framed values and EOF-vs-error). Families: bytes-exhaustive (all strings of length <= 4 (quick) / 5 (thorough) over a 35-byte JSON-significant alphabet), tokens-exhaustive (all sequences of <= 3 / 4 tokens over a 40-token alphabet), string-sweep (content length 0-40 x every position x 16 special sequences x 5 contexts), number-grammar (sign x int x frac x exp product in 6 contexts), nesting (depth 1..20000 around 10000, the innermost value a scalar or one or two more empty levels), mutated (generated documents with 1-3 byte mutations), decoder-stream (streams of 4-140 KiB of self-delimiting values: printable-ASCII values followed or preceded by values with escapes, control and non-ASCII bytes, framed by Decoder vs encoding/json's Decoder). Quick runs one rotating consumer per document besides Valid, thorough all of them. Distinct = distinct chunk / document; non-trivial = non-empty.",
+		Rule:    "Every document goes through json.Valid and through syntax-only consumers (Marshal of RawMessage / Marshaler output / RawMessage field / RawMessage among valid siblings in maps and slices, Unmarshal into RawMessage, unknown-field skip, RawMessage field, surplus elements of [1]int and [0]int, arrays with fewer elements than slots, skipped member between known fields, Decoder framing of d, 'd d' and 'dd'); each is compared with the same operation of encoding/json on the same bytes (accept/reject; for the Decoder the framed values and EOF-vs-error). Families: bytes-exhaustive (all strings of length <= 4 (quick) / 5 (thorough) over a 35-byte JSON-significant alphabet), tokens-exhaustive (all sequences of <= 3 / 4 tokens over a 40-token alphabet), string-sweep (content length 0-40 x every position x 16 special sequences x 5 contexts), number-grammar (sign x int x frac x exp product in 6 contexts), nesting (depth 1..20000 around 10000, the innermost value a scalar or one or two more empty levels), mutated (generated documents with 1-3 byte mutations), decoder-stream (streams of 4-140 KiB of self-delimiting values and bare numbers and literals: printable-ASCII values followed or preceded by values with escapes, control and non-ASCII bytes, framed by Decoder vs encoding/json's Decoder). Quick runs one rotating consumer per document besides Valid, thorough all of them. Distinct = distinct chunk / document; non-trivial = non-empty.",
 		Trusted: []string{"encoding/json (go1.23.5): Valid, Marshal, Unmarshal, Decoder as the reference for accept/reject"},
 		Subs: []core.Sub{
 			{Name: "bytes-exhaustive", N: func(t core.Tier) int {
